@@ -1,6 +1,6 @@
 #!/bin/bash
 # usage: run_refactors.sh <dir-with-rN/patch.diff ...>  — run ALL property checks against each behaviour-preserving patch; any alarm is a false alarm
-for d in "$@"; do
+for d in "$@"; do d=$(realpath $d)
   [ -f $d/patch.diff ] || continue
   S=/var/tmp/rf.$$; V=/var/tmp/rfv.$$; rm -rf $S $V; mkdir -p $V
   rsync -a --exclude .git /repo/ $S/; cp /verif/known_findings.json /verif/properties.jsonl $V/
